@@ -169,6 +169,11 @@ func C18(c *Ctx) {
 				}
 				cs.AllowInvalid = o == 3
 				cs.NoRecover = o == 4
+				if u.IsLR && ii%4 == 2 && len(u.G.Rules) > 2 {
+					// calls that enter the grammar through other rules, members of left-recursive cycles
+					// included (whatever an entrypoint needs set up must not be written into the shared grammar)
+					cs.Entry = u.G.Rules[1+ii%(len(u.G.Rules)-1)].Name
+				}
 				if ii%6 == 5 {
 					// budgets that run out, different ones in calls that overlap (with Recover(false) the
 					// budget panic reaches the caller)
